@@ -1,6 +1,6 @@
 (* Single entry point of the extracted model: one case in, one canonical ASCII line out. *)
 From Coq Require Import String.
-From Ruler Require Import Bytes Show Base62 Sha256 Bincode StateFiles Bundle RuleSyntax Parser TopoSort ShowRules World Work Build Ops Concrete Server Protocol Acts Sched Fine.
+From Ruler Require Import Bytes Show Base62 Sha256 Bincode StateFiles Bundle RuleSyntax Parser TopoSort ShowRules World Work Build Ops Concrete Server Protocol Acts Sched Fine CleanFine.
 
 (* operations as the harness writes them: names are the 43-character text forms, state files raw bytes *)
 Inductive xop :=
@@ -52,6 +52,7 @@ Inductive case :=
 | CCrash (with_acts : bool) (coarse : bool) (t0 : N) (ops : list xop)
 | COrder (coarse : bool) (t0 : N) (ops : list xop) (goal : option bytes) (ord : list nat)
 | CFine (coarse : bool) (t0 : N) (ops : list xop) (goal : option bytes) (events : list (nat * nat))
+| CCleanFine (coarse : bool) (t0 : N) (ops : list xop) (goal : option bytes) (events : list nat)
 | CTrace (rules_text : bytes) (goal : option bytes) (is_clean : bool) (events : list event)
 | CServe (cache : list (bytes * bytes)) (hist : list (bytes * bytes)) (requests : list (list bytes)).
 
@@ -213,6 +214,59 @@ Definition show_fine_run (mode : clock_mode) (t0 : N) (ops : list cop) (goal : o
       end
   end.
 
+(* clean under the order in which the implementation's clean threads moved files into the cache: an event k = "the thread
+   of node k renamed its next existing target into the cache". Steps over targets that do not exist touch nothing
+   shared and are performed as needed. bad = events the model's thread could not perform. *)
+Fixpoint clean_advance_to_backup (fuel : nat) (blobs : list (blob cticket)) (st : cstate cticket) (k : nat) : option (cstate cticket) :=
+  match fuel with
+  | O => None
+  | S f =>
+      match cstep c_teqb c_hc blobs st k with
+      | None => None
+      | Some st' =>
+          match nth k (cs_pos st) None, nth k (cs_pos st') None with
+          | Some i, Some j =>
+              (* a target was looked at: was it moved? the thread's position advanced either way; a move shows in the files *)
+              match nth_error (nth k blobs []) i with
+              | Some (p, _) => match fget (cs_world st) p, fget (cs_world st') p with
+                               | Some _, None => Some st'
+                               | _, _ => if Nat.eqb i j then None else clean_advance_to_backup f blobs st' k
+                               end
+              | None => None
+              end
+          | _, _ => None
+          end
+      end
+  end.
+
+Fixpoint clean_replay (blobs : list (blob cticket)) (events : list nat) (st : cstate cticket) (bad : nat) : cstate cticket * nat :=
+  match events with
+  | [] => (st, bad)
+  | k :: rest =>
+      match clean_advance_to_backup (S (length (nth k blobs []))) blobs st k with
+      | Some st' => clean_replay blobs rest st' bad
+      | None => clean_replay blobs rest st (S bad)
+      end
+  end.
+
+Definition show_clean_fine_run (mode : clock_mode) (t0 : N) (ops : list cop) (goal : option bytes) (events : list nat) : bytes :=
+  let w := c_run (init_world mode t0) ops in
+  match init_dir cticket w with
+  | Err _ => lit "(cleanfine noplan)"
+  | Ok (w1, t) =>
+      match get_nodes cticket w1 RULES_PATH goal with
+      | Err _ => lit "(cleanfine noplan)"
+      | Ok pack =>
+          let blobs := node_blobs c_hc t (p_nodes pack) in
+          let n := length blobs in
+          let (st1, bad) := clean_replay blobs events (mk_cs w1 (repeat (Some O) n) (repeat None n)) O in
+          let st2 := crun c_teqb c_hc blobs (cserial blobs) st1 in
+          let errs := flat_map (fun o => match o with Some e => [e] | None => [] end) (cs_err st2) in
+          let o := mk_outcome (cs_world st2) (match errs with [] => VOk | es => VWorkErrors es end) [] [] in
+          paren [lit "cleanfine"; show_nat bad; show_bool (call_done st2); show_obs (tick (cs_world st2)) (Some o)]
+      end
+  end.
+
 Definition show_dec_err (e : dec_err) : bytes :=
   match e with
   | InvalidLength => lit "InvalidLength"
@@ -274,6 +328,8 @@ Definition run_case (c : case) : bytes :=
       show_order_run (if coarse then Coarse else Fine) t0 (flat_map cop_of ops) goal ord
   | CFine coarse t0 ops goal events =>
       show_fine_run (if coarse then Coarse else Fine) t0 (flat_map cop_of ops) goal events
+  | CCleanFine coarse t0 ops goal events =>
+      show_clean_fine_run (if coarse then Coarse else Fine) t0 (flat_map cop_of ops) goal events
   | CHistory coarse t0 ops =>
       show_history_run (if coarse then Coarse else Fine) t0 (flat_map cop_of ops)
   end.
